@@ -20,7 +20,7 @@ RULE = (
     "per-key order, nothing else); data-transform blocks outside the documented list paths are checked "
     "metamorphically (number of reported values == number of statements). Builder twin: the same AST built through "
     "the ConfigBlock API (kwargs and method calls) must be indistinguishable in tree, text and dictionary. Stateful: "
-    "set_option / set_config_block / as_dict / properties interleaved, the view must equal the model after every "
+    "set_option / set_config_block / in-place change of a nested block (profile.tree) / as_dict / properties interleaved, the view must equal the model after every "
     "modification. Non-trivial: >= 3 statements incl. a list block or a pair; twin with a nested block; history "
     "with a read between two modifications."
 )
@@ -249,6 +249,25 @@ class DictState:
             lib(self.profile.set_config_block, n[1].replace("-", "_"), blk, what="set_config_block")
             self.nodes.append(n)
             self._modified()
+        elif kind == "nested_set":
+            # modify an already attached block in place, below the top level (profile.tree is the documented AST)
+            from lark import Token, Tree
+
+            blocks = [i for i, n in enumerate(self.nodes) if n[0] == "block"]
+            if not blocks:
+                return
+            i = blocks[op[1] % len(blocks)]
+            n = self.nodes[i]
+            sets = [sp for sp in PL.BLOCKS[n[1]] if sp[0] == "set"]
+            if not sets:
+                return
+            sp = sets[op[2] % len(sets)]
+            lit = canon(c2profile, op[3])
+            node = self.profile.tree.children[i]
+            check(isinstance(node, Tree) and node.data == n[1].replace("-", "_"), "harness:tree_layout", f"top-level child {i} is {getattr(node, 'data', node)!r}")
+            node.children.append(Tree(PL.alias_of(n[1], "set", sp[1]), [Tree("string", [Token("STRING", lit)])]))
+            self.nodes[i] = ["block", n[1], None, list(n[3]) + [["set", sp[1], op[3]]]]
+            self._modified()
         elif kind in ("as_dict", "properties"):
             d = lib(self.profile.as_dict if kind == "as_dict" else (lambda: self.profile.properties), what=kind)
             compare_model(d, twin_nodes(c2profile, self.nodes), what=f"view after {len(self.nodes)} modifications")
@@ -283,6 +302,10 @@ def dict_machine(stats, rec):
         @rule(i=st.integers(0, len(BLOCK_POOL) - 1), kwargs=st.booleans())
         def add_block(self, i, kwargs):
             self.do(("add_block", i, kwargs))
+
+        @rule(i=st.integers(0, 7), j=st.integers(0, 7), value=_bytes_lit)
+        def nested_set(self, i, j, value):
+            self.do(("nested_set", i, j, value))
 
         @rule(kind=st.sampled_from(["as_dict", "properties"]))
         def read(self, kind):
